@@ -65,3 +65,9 @@ def harnesses(tier, seed, active_kf=()):
                       covers=covers, pre=e["pre_light"], timeout=e["timeout"] * 1.5, functions=FUNCS,
                       prelude=PRELUDE, bounds=BOUNDS))
     return out
+
+
+def extra_checks(tier, seed, replay_dir, active_kf=()):
+    """E2: exact IEEE-754 execution of the float branch (engine/fpsym.py) - see harness/fp_extra.py"""
+    from harness import fp_extra
+    return fp_extra.run("C03", tier, replay_dir, active_kf)
